@@ -9,7 +9,8 @@
 From Coq Require Import ZArith List Bool.
 From Model Require Import Text Instr AsmAst Obj Assembler.
 From Spec Require Import LayoutSpec WfSpec.
-From Proofs Require Import AsmPass1 AsmThms.
+From Spec Require Import LineSpec.
+From Proofs Require Import AsmPass1 AsmThms AsmLines.
 Import ListNotations.
 Open Scope Z_scope.
 
@@ -26,6 +27,12 @@ Theorem C01_image_debug : forall src p, typed p = true -> wf p = true -> assembl
   exists o, assemble true (Some src) p = AOk o /\ forall a, image o a = spec_image p a.
 Proof. intros src p T W N. exact (image_debug src p W T N). Qed.
 Print Assumptions C01_image_debug.
+
+(* ... in particular for parser output (statements on strictly increasing lines) *)
+Theorem C01_image_debug_parsed : forall src p, typed p = true -> wf p = true -> lines_inc src p ->
+  exists o, assemble true (Some src) p = AOk o /\ forall a, image o a = spec_image p a.
+Proof. intros src p T W LI. exact (image_debug src p W T (assemble_debug_total src p T LI)). Qed.
+Print Assumptions C01_image_debug_parsed.
 
 (* the symbol table binds every name, in any letter case, to its first positional binding:
    address of the statement the label stands on (0 for .external), source offset, external flag *)
